@@ -35,7 +35,9 @@ let exact n v = if fits n v then Some v else None
 let bit b = if b then "1" else "0"
 let cmpi = function Eq -> 0 | Lt -> -1 | Gt -> 1
 
-let run op args =
+let rec run op args =
+  if op = "remdiv_same" then run "remdiv" (args @ List.tl args)
+  else if op = "cmp_same" then run "cmp" (args @ List.tl args) else
   let n = int_of_string (List.hd args) in
   let nn = nat_of_int n in
   let a = List.map z (List.tl args) in
